@@ -21,7 +21,7 @@ func init() {
 		Level: "exploration",
 		Rule: "a real p9p.CSession client in front of a scripted fake server (raw wire, reference codec). (a) Rounds on one session: N in {1..64} concurrent callers of mixed kinds (Read, Stat, Walk, Open, Attach, Write, Create), every call and every reply carrying a unique id; the server collects the requests, " +
 			"answers them in a PRNG permutation in several batches with new callers arriving in between, some replies are Rerror, some callers abandon their call (context cancelled) before the reply and are answered late — in the same or a later round. (b) Tag wrap: one session, >= 70 000 calls from 8 pipelining callers answered at once, " +
-			"while L in {1,17,200} long-outstanding (some abandoned) calls pin tags spread over the tag space; thorough repeats with 200 000 calls. (c) Depletion: 65535 calls are abandoned as their requests arrive and never answered, so that every tag is outstanding; one more call must fail without putting a request on the wire; after the replies are sent a new call succeeds. (d) calls issued with an already ended context while others are pending. (e) Idle wrap: 66 100 strictly sequential calls (nothing outstanding when the counter passes 0xFFFE), with a pause of one abandoned call now and then. Online monitor: a request's tag is never NOTAG and never equal to a tag still awaiting its reply on the server side (including abandoned calls); each call returns the result carrying its own id (or the error text of its Rerror); " +
+			"while L in {1,17,200} long-outstanding (some abandoned) calls pin tags spread over the tag space; thorough repeats with 200 000 calls. (c) Depletion: 65535 calls are abandoned as their requests arrive and never answered, so that every tag is outstanding; one more call must fail without putting a request on the wire; after the replies are sent a new call succeeds. (d) calls issued with an already ended context while others are pending. (e) Idle wrap: 66 100 strictly sequential calls (nothing outstanding when the counter passes 0xFFFE), and the call that receives tag 0 after the wrap held back while the connection's read side reports temporary timeouts (nothing lost) - it must neither return nor be disturbed. Online monitor: a request's tag is never NOTAG and never equal to a tag still awaiting its reply on the server side (including abandoned calls); each call returns the result carrying its own id (or the error text of its Rerror); " +
 			"at quiescence every call whose reply was sent has returned; the wrap 0xFFFE->0 must be observed in (b). Go race detector on transport.go / csession.go / channel.go. non-trivial = >= 2 outstanding tags and >= 1 reply out of request order; distinct by hash of (arrival order, reply order)",
 		Assumptions: []string{
 			"the fake server is the judge of 'awaiting a reply': a tag is outstanding from the moment its request is parsed until the script sends its reply",
@@ -32,7 +32,7 @@ func init() {
 		Shards:    shards(8, 16),
 		Timeout:   timeouts(12*time.Minute, 90*time.Minute),
 		MinEvals:  50,
-		Required:  []string{"rounds", "replies_out_of_order", "abandoned_then_answered_late", "error_replies", "wrap_runs", "tag_wraps_observed", "pinned_tags_skipped_checks", "calls_returned_own_uid", "abandoned_during_write", "pin_bursts_below_notag", "dead_context_calls_among_pending", "depletion_runs", "depleted_call_refused", "idle_wrap_runs"},
+		Required:  []string{"rounds", "replies_out_of_order", "abandoned_then_answered_late", "error_replies", "wrap_runs", "tag_wraps_observed", "pinned_tags_skipped_checks", "calls_returned_own_uid", "abandoned_during_write", "pin_bursts_below_notag", "dead_context_calls_among_pending", "depletion_runs", "depleted_call_refused", "idle_wrap_runs", "read_hiccups_with_tag0_outstanding"},
 		Run:       runC05,
 	})
 }
@@ -789,6 +789,11 @@ func runC05IdleWrap(w *mon.W, no int) {
 	var mu sync.Mutex
 	seen, wraps, lastTag := 0, 0, -1
 	violated := false
+	// the first request that carries tag 0 (only possible after the wrap) is held back while
+	// the connection's read side hiccups (a temporary timeout error, nothing lost): the
+	// call must neither return nor be disturbed; then it is answered
+	var held *p9p.Fcall
+	heldCh := make(chan struct{})
 	h.mu.Lock()
 	h.onReq = func(fc *p9p.Fcall) {
 		mu.Lock()
@@ -801,10 +806,34 @@ func runC05IdleWrap(w *mon.W, no int) {
 			wraps++
 		}
 		lastTag = int(fc.Tag)
+		if fc.Tag == 0 && held == nil && uidOfRequest(fc) < 900000 {
+			held = fc
+			mu.Unlock()
+			close(heldCh)
+			return
+		}
 		mu.Unlock()
 		h.reply(replyFor(fc, uidOfRequest(fc)))
 	}
 	h.mu.Unlock()
+	glitchDone := make(chan struct{})
+	go func() {
+		defer close(glitchDone)
+		<-heldCh
+		// read-side hiccups, interleaved with a ping call each so that the client's reader comes round to them
+		for k := 0; k < 3; k++ {
+			h.fault.Glitch(1)
+			r := doCall(context.Background(), h.sess, ckStat, 900001+k)
+			if r.err != nil || r.uid != 900001+k {
+				w.Violate("mismatch", "C05:crossed-reply", fmt.Sprintf("idle wrap: ping call during a read hiccup returned uid=%d err=%v", r.uid, r.err), nil)
+			}
+		}
+		w.Count("read_hiccups_with_tag0_outstanding", int64(h.fault.Glitched()))
+		mu.Lock()
+		fc := held
+		mu.Unlock()
+		h.reply(replyFor(fc, uidOfRequest(fc)))
+	}()
 	const total = 66100
 	done := make(chan struct{})
 	var tearingDown int32
@@ -828,6 +857,18 @@ func runC05IdleWrap(w *mon.W, no int) {
 	if q.Hung {
 		w.Violate("hang", "C05:hang:"+q.Sites, "idle wrap: the caller has not returned although the process is quiescent; blocked at "+q.Sites, nil)
 		return
+	}
+	if q.Done {
+		select {
+		case <-glitchDone:
+		default:
+			mu.Lock()
+			v := violated
+			mu.Unlock()
+			if !v {
+				w.Inconclusive("idle wrap: tag 0 was never seen, the read-hiccup step did not run")
+			}
+		}
 	}
 	if !q.Done {
 		w.Inconclusive("watchdog in idle wrap run")
